@@ -1813,3 +1813,128 @@ Section ListenerStart.
       cbn [forallb] in Hf. apply andb_true_iff in Hf. destruct Hf as [H1 H2]. rewrite H1. apply (IH H2).
   Qed.
 End ListenerStart.
+
+(* ================================================================== the class hierarchy *)
+Fixpoint cd_get (n : Z) (cd : classdict) : option entry :=
+  match cd with [] => None | (m, e) :: t => if n =? m then Some e else cd_get n t end.
+(* what attribute lookup finds: the binding in the most derived class that binds the name *)
+Fixpoint most_derived (mro : list classdict) (n : Z) : option entry :=
+  match mro with
+  | [] => None
+  | cd :: t => match cd_get n cd with Some e => Some e | None => most_derived t n end
+  end.
+
+Lemma cd_get_none n cd : cd_get n cd = None <-> ~ In n (map fst cd).
+Proof.
+  induction cd as [|[m e] t IH]; cbn [cd_get map fst In]; [tauto|].
+  destruct (n =? m) eqn:E.
+  - apply Z.eqb_eq in E. subst. split; [discriminate|intros H; exfalso; apply H; left; reflexivity].
+  - apply Z.eqb_neq in E. rewrite IH. split; [intros H [H1|H1]; [congruence|contradiction]|tauto].
+Qed.
+
+Lemma dg_class_spec cd : forall seen,
+  let r := dg_class true seen cd in
+  (forall x, In x (fst r) <-> In x seen \/ In x (map fst cd)) /\
+  (forall n e, In (n, e) (snd r) <-> ~ In n seen /\ cd_get n cd = Some e /\ is_obs e = true).
+Proof.
+  induction cd as [|[m e0] t IH]; intros seen; cbn [dg_class].
+  - cbn. split; [tauto|]. intros n e. split; [intros []|intros [_ [H _]]; discriminate].
+  - cbn [andb]. destruct (zmem m seen) eqn:Em.
+    + apply zmem_In in Em. destruct (IH seen) as [H1 H2]. split.
+      * intros x. rewrite H1. cbn [map fst In]. split; [tauto|intros [H|[H|H]]; [tauto|subst; tauto|tauto]].
+      * intros n e. rewrite H2. cbn [cd_get]. destruct (n =? m) eqn:E; [|tauto].
+        apply Z.eqb_eq in E. subst. split; [tauto|intros [H _]; contradiction].
+    + assert (~ In m seen) as Hm by (intros H; apply zmem_In in H; congruence).
+      destruct (IH (m :: seen)) as [H1 H2]. destruct (dg_class true (m :: seen) t) as [seen' out']. cbn [fst snd] in *.
+      split.
+      * intros x. rewrite H1. cbn [map fst In]. tauto.
+      * intros n e. cbn [cd_get]. destruct (n =? m) eqn:E.
+        -- apply Z.eqb_eq in E. subst n. destruct (is_obs e0) eqn:Eo.
+           ++ cbn [In]. rewrite H2. cbn [In]. split.
+              ** intros [H|[H _]]; [inversion H; subst; tauto|exfalso; apply H; left; reflexivity].
+              ** intros [_ [H Ho]]. left. inversion H. reflexivity.
+           ++ rewrite H2. cbn [In]. split; [intros [H _]; exfalso; apply H; left; reflexivity|].
+              intros [_ [H Ho]]. inversion H. subst. congruence.
+        -- apply Z.eqb_neq in E. destruct (is_obs e0).
+           ++ cbn [In]. rewrite H2. cbn [In]. split.
+              ** intros [H|[H1' H2']]; [inversion H; congruence|tauto].
+              ** intros [H1' H2']. right. split; [intros [H|H]; [congruence|contradiction]|exact H2'].
+           ++ rewrite H2. cbn [In]. split; [tauto|]. intros [H1' H2']. split; [intros [H|H]; [congruence|contradiction]|exact H2'].
+Qed.
+
+Lemma dg_walk_spec mro : forall seen n e,
+  In (n, e) (dg_walk true seen mro) <-> ~ In n seen /\ most_derived mro n = Some e /\ is_obs e = true.
+Proof.
+  induction mro as [|cd t IH]; intros seen n e; cbn [dg_walk most_derived].
+  - split; [intros []|intros [_ [H _]]; discriminate].
+  - destruct (dg_class_spec cd seen) as [H1 H2]. destruct (dg_class true seen cd) as [seen' out]. cbn [fst snd] in *.
+    rewrite in_app_iff, H2, IH, H1. destruct (cd_get n cd) as [e'|] eqn:Ec.
+    + assert (In n (map fst cd)) as Hin.
+      { destruct (in_dec Z.eq_dec n (map fst cd)) as [H|H]; [exact H|]. apply cd_get_none in H. congruence. }
+      split; [intros [H|[H _]]; [tauto|exfalso; apply H; right; exact Hin]|tauto].
+    + assert (~ In n (map fst cd)) as Hn by (apply cd_get_none; exact Ec).
+      split; [intros [[_ [H _]]|H]; [discriminate|tauto]|intros H; right; tauto].
+Qed.
+
+(* dict(pairs) *)
+Fixpoint alast (n : Z) (l : list (Z * entry)) : option entry :=
+  match l with [] => None | (m, e) :: t => match alast n t with Some e' => Some e' | None => if n =? m then Some e else None end end.
+Lemma dict_get_set n k v d : dict_get n (dict_set k v d) = if n =? k then Some v else dict_get n d.
+Proof.
+  induction d as [|[k' v'] t IH]; cbn [dict_set dict_get]; [reflexivity|].
+  destruct (k =? k') eqn:E; cbn [dict_get].
+  - apply Z.eqb_eq in E. subst k'. destruct (n =? k); reflexivity.
+  - rewrite IH. destruct (n =? k') eqn:E2; [|reflexivity]. apply Z.eqb_eq in E2. subst k'.
+    destruct (n =? k) eqn:E3; [|reflexivity]. apply Z.eqb_eq in E3. subst. rewrite Z.eqb_refl in E. discriminate.
+Qed.
+Lemma dict_of_get n l : forall d,
+  dict_get n (fold_left (fun d p => dict_set (fst p) (snd p) d) l d) =
+  match alast n l with Some e => Some e | None => dict_get n d end.
+Proof.
+  induction l as [|[m e] t IH]; intros d; cbn [fold_left alast fst snd]; [reflexivity|].
+  rewrite IH. destruct (alast n t); [reflexivity|]. rewrite dict_get_set. destruct (n =? m); reflexivity.
+Qed.
+Lemma alast_In n l : (forall e1 e2, In (n, e1) l -> In (n, e2) l -> e1 = e2) ->
+  match alast n l with Some e => In (n, e) l | None => forall e, ~ In (n, e) l end.
+Proof.
+  induction l as [|[m e0] t IH]; intros Hf; cbn [alast]; [intros e []|].
+  assert (forall e1 e2, In (n, e1) t -> In (n, e2) t -> e1 = e2) as Hf' by (intros; apply Hf; right; assumption).
+  specialize (IH Hf'). destruct (alast n t) as [e'|]; [right; exact IH|].
+  destruct (n =? m) eqn:E.
+  - apply Z.eqb_eq in E. subst. left. reflexivity.
+  - apply Z.eqb_neq in E. intros e [H|H]; [inversion H; congruence|apply (IH e H)].
+Qed.
+
+(* with the shadowing walk, observables[name] is the most derived definition of name, if that is an observable *)
+Theorem observables_most_derived mro n :
+  dict_get n (observables_of true mro) =
+  match most_derived mro n with Some e => if is_obs e then Some e else None | None => None end.
+Proof.
+  unfold observables_of. rewrite dict_of_get. cbn [dict_get].
+  assert (forall e1 e2, In (n, e1) (dg_walk true [] mro) -> In (n, e2) (dg_walk true [] mro) -> e1 = e2) as Hf.
+  { intros e1 e2 H1 H2. apply dg_walk_spec in H1. apply dg_walk_spec in H2. destruct H1 as [_ [H1 _]], H2 as [_ [H2 _]]. congruence. }
+  pose proof (alast_In n _ Hf) as A. destruct (alast n (dg_walk true [] mro)) as [e|].
+  - apply dg_walk_spec in A. destruct A as [_ [-> ->]]. reflexivity.
+  - destruct (most_derived mro n) as [e|] eqn:Em; [|reflexivity]. destruct (is_obs e) eqn:Eo; [|reflexivity].
+    exfalso. apply (A e). apply dg_walk_spec. split; [intros []|split; [exact Em|exact Eo]].
+Qed.
+
+Lemma nth_error_build_slots obs vals : forall k m,
+  nth_error (build_slots obs k vals) m = option_map (slot_from (dict_get (k + Z.of_nat m) obs)) (nth_error vals m).
+Proof.
+  induction vals as [|s t IH]; intros k [|m]; cbn [build_slots nth_error option_map]; try reflexivity.
+  - rewrite Z.add_0_r. reflexivity.
+  - rewrite IH. replace (k + 1 + Z.of_nat m) with (k + Z.of_nat (S m)) by lia. reflexivity.
+Qed.
+Definition types_of_entry (tb : sig_tables) (e : entry) : list Z :=
+  match e with EObs _ => tb_obs_types tb | EList => tb_list_types tb | EPlain => [] end.
+(* the signal types the model (hence run_case) uses for attribute n of an instance are those of the most
+   derived definition of n in the class hierarchy of the case *)
+Theorem effective_types tb shadow mro vals n s e : shadow = true ->
+  0 <= n -> nth_error vals (Z.to_nat n) = Some s -> most_derived mro n = Some e -> is_obs e = true ->
+  types_of tb (build_slots (observables_of shadow mro) 0 vals) n = types_of_entry tb e.
+Proof.
+  intros -> Hn Hs Hm Ho. unfold types_of, slot_at. destruct (n <? 0) eqn:E; [apply Z.ltb_lt in E; lia|].
+  rewrite nth_error_build_slots, Hs. cbn [option_map]. rewrite Z2Nat.id by lia. cbn [Z.add].
+  rewrite observables_most_derived, Hm, Ho. destruct e as [fb| |]; [destruct s; reflexivity|destruct s; reflexivity|discriminate].
+Qed.
